@@ -48,6 +48,9 @@ type AdmPlan struct {
 	Actors  []AdmActor        `json:"actors"`
 	Origin  []OriginBehaviour `json:"origin"` // per connection attempt, in order (last one repeats)
 	Ops     []AdmOp           `json:"ops"`
+	// Relay: instead of the admission history above, run the "RTSP relay pull overtaken by a publisher" scenario
+	// (check_c03_rtsppull.go)
+	Relay *RelayPlan `json:"relay,omitempty"`
 }
 
 // InputAttempt is one attempt to become a stream's input, with the event-sequence stamps porcupine needs.
